@@ -176,7 +176,7 @@ func RunShard(a shardArgs) int {
 		func() {
 			defer func() {
 				if r := recover(); r != nil {
-					c.Violate("harness-unrecovered-panic", fmt.Sprintf("panic escaped the case body: %v", r), string(debug.Stack()))
+					c.Violate("unrecovered-panic", fmt.Sprintf("panic escaped the case body: %v", r), string(debug.Stack()))
 				}
 			}()
 			caseFn(c)
@@ -275,6 +275,7 @@ func merge(dst, src *ShardResult) {
 	}
 	dst.Violations = append(dst.Violations, src.Violations...)
 	dst.Slow = append(dst.Slow, src.Slow...)
+	dst.Incon = append(dst.Incon, src.Incon...)
 }
 
 func readShard(path string) *ShardResult {
@@ -513,6 +514,11 @@ func RunParent(id, tier string) int {
 			}()
 			p.Parent(pc)
 		}()
+	}
+	for i, r := range merged.Incon {
+		if i < 5 {
+			pc.Inconclusive(r)
+		}
 	}
 	for _, k := range p.MustCover {
 		if merged.Cover[k] == 0 {
